@@ -542,4 +542,29 @@ theorem calcChange_wf (P : Params) (a : ChangeArgs) (cs : List Output) (h : calc
     | (simp only [Except.ok.injEq] at h; subst h; intro o ho; simp at ho; subst ho; exact MultiAsset.wf_nil)
     | exact changeLoop_wf P a.addr a.respect _ _ cs h (packTokens_wf P a.addr _)
 
+/-- what `_calc_changes()` returns is a result of `_calc_change` on the final arguments, with the minimum-ADA flag `r`;
+`r` is on whenever the change outputs end up as outputs of their own (no merge target, or a split change) -/
+theorem finalChanges_calc (P : Params) (outs cs : List Output) (a : ChangeArgs) (mc : Bool)
+    (h : finalChanges P outs a mc = .ok cs) :
+    ∃ r : Bool, calcChange P (withRespect (finalArgs outs a mc) r) = .ok cs ∧
+      (mergeIndex outs a mc = none → r = true) ∧ (cs.length ≠ 1 → r = true) := by
+  unfold finalChanges at h
+  split at h
+  · simp at h
+  · rename_i cs0 h0
+    split at h
+    · rename_i hc
+      exact ⟨true, h, fun _ => rfl, fun _ => rfl⟩
+    · rename_i hc
+      simp only [Except.ok.injEq] at h
+      subst h
+      simp only [Bool.and_eq_true, bne_iff_ne, ne_eq, not_and, Decidable.not_not] at hc
+      refine ⟨(finalArgs outs a mc).respect, by simpa [withRespect] using h0, ?_, ?_⟩
+      · intro hn; simp [finalArgs, hn]
+      · intro hl
+        cases hm : mergeIndex outs a mc with
+        | none => simp [finalArgs, hm]
+        | some i => exact absurd (hc (by simp [hm])) hl
+
+
 end Pyc.Builder
